@@ -193,6 +193,10 @@ def generate(rng, config):
     case = {"formula": _gen_family(rng) if rng.random() < 0.3
             else _gen_formula(rng),
             "store": _gen_store(rng), "load": _gen_load(rng), "faults": []}
+    if config == "roundtrip":
+        # the locale of the process (what open() without an encoding uses)
+        case["locale"] = rng.choice([None, None, None, "ascii", "latin-1",
+                                     "cp1252"])
     if config == "damage":
         k = rng.choice([1, 1, 1, 2, 3])
         case["faults"] = [{"kind": "stored", "seed": rng.randrange(2 ** 30),
@@ -406,6 +410,8 @@ def execute(case, ctx):
     # this process (module-level / class-level state is re-created)
     importlib.reload(_parsedimacs)
     fs = SimFS(on_fire=ctx.fault)
+    if case.get("locale"):
+        fs.locale_encoding = case["locale"]
     ld = case["load"]
     with open_router(fs):
         if "texts" in case:
